@@ -35,10 +35,12 @@ var vOps = []string{
 }
 
 type vCase struct {
-	Mode  string `json:"mode"` // c11 | c12
-	EPN   int    `json:"epn"`
-	First []int  `json:"first"`
-	Depth int    `json:"depth"`
+	Mode string `json:"mode"` // c11 | c12
+	EPN  int    `json:"epn"`
+	// KeyLast declares the table as columns='b, c, a primary key'.
+	KeyLast bool  `json:"keylast,omitempty"`
+	First   []int `json:"first"`
+	Depth   int   `json:"depth"`
 }
 
 func init() {
@@ -79,6 +81,13 @@ func vRun(r *engine.Run, mode string) int {
 			cases = append(cases, engine.J(vCase{Mode: mode, EPN: epn, First: []int{a}, Depth: 1}))
 		}
 	}
+	// the same sequences, one level shallower, on a table whose key is the last declared column
+	for a := range vOps {
+		for b := range vOps {
+			cases = append(cases, engine.J(vCase{Mode: mode, EPN: 4096, KeyLast: true, First: []int{a, b}, Depth: depth - 1}))
+		}
+	}
+	r.Bounds["key_last_column_depth"] = depth - 1
 	n := 0
 	r.MapBudget("versions", cases, func(i int, c json.RawMessage, res *engine.Result) {
 		r.Add("versions", c, res)
@@ -184,6 +193,10 @@ func vRunSeq(res *engine.Result, c vCase, ops []int) interface{} {
 	clock := 1000
 	w.SetClock(engine.T(clock))
 	opts := engine.TableOpts{EPN: c.EPN}
+	if c.KeyLast {
+		opts.Columns = "b, c, a primary key"
+		feat += "|key-not-first"
+	}
 	cl := map[string]*engine.Client{}
 	for _, n := range []string{"w1", "w2"} {
 		x := w.NewClient(n)
@@ -199,7 +212,7 @@ func vRunSeq(res *engine.Result, c vCase, ops []int) interface{} {
 		// filler rows so that the tree is multi-level
 		must(cl["w1"].Exec("begin"))
 		for i := 101; i <= 108; i++ {
-			must(cl["w1"].Exec("insert into {T} values(?,?,?)", i, "f", i))
+			must(cl["w1"].Exec("insert into {T}(a,b,c) values(?,?,?)", i, "f", i))
 		}
 		must(cl["w1"].Exec("commit"))
 		must(cl["w2"].Refresh())
@@ -251,7 +264,7 @@ func vRunSeq(res *engine.Result, c vCase, ops []int) interface{} {
 		switch strings.SplitN(op, ":", 2)[len(strings.SplitN(op, ":", 2))-1] {
 		case "insert 1", "insert 2":
 			k := op[len(op)-1:]
-			n, err := x.Affected(fmt.Sprintf("insert into {T} values(%s,'i%d',%d)", k, step, step))
+			n, err := x.Affected(fmt.Sprintf("insert into {T}(a,b,c) values(%s,'i%d',%d)", k, step, step))
 			effect = err == nil && n == 1
 		case "update 1", "update 2":
 			k := op[len(op)-1:]
@@ -263,7 +276,7 @@ func vRunSeq(res *engine.Result, c vCase, ops []int) interface{} {
 			effect = err == nil && n == 1
 		case "tx-insert2-update1":
 			must(x.Exec("begin"))
-			n1, e1 := x.Affected(fmt.Sprintf("insert into {T} values(2,'t%d',%d)", step, step))
+			n1, e1 := x.Affected(fmt.Sprintf("insert into {T}(a,b,c) values(2,'t%d',%d)", step, step))
 			n2, e2 := x.Affected(fmt.Sprintf("update {T} set c='t%d' where a=1", step))
 			if err := x.Exec("commit"); err != nil {
 				viol("commit-failed", "%v", err)
@@ -277,7 +290,7 @@ func vRunSeq(res *engine.Result, c vCase, ops []int) interface{} {
 				return nil
 			}
 			k := strings.TrimPrefix(strings.SplitN(rowsBefore[0], "|", 2)[0], "i")
-			if err := x.Exec("insert into {T} values(" + k + ",'dup',0)"); err == nil {
+			if err := x.Exec("insert into {T}(a,b,c) values(" + k + ",'dup',0)"); err == nil {
 				viol("duplicate-insert-accepted", "duplicate insert of key %s accepted", k)
 			}
 		case "noop-select":
@@ -442,7 +455,7 @@ func vRunSeq(res *engine.Result, c vCase, ops []int) interface{} {
 			changes(a.ver, b.ver)
 			nreq := len(w.B.LogSince(mark))
 			for k := 0; k < nreq; k++ {
-				for _, kind := range []string{"transport", "aws500", "ctx"} {
+				for _, kind := range []string{"transport", "aws500", "ctx", "nosuchkey"} {
 					count := -1
 					w1.H.Fault = func(rq *engine.Req) (engine.FaultMode, error) {
 						count++
@@ -450,6 +463,13 @@ func vRunSeq(res *engine.Result, c vCase, ops []int) interface{} {
 							return engine.FaultNone, nil
 						}
 						switch kind {
+						case "nosuchkey":
+							// a well-formed "no such object" answer for a NODE of a version asked for by name (a vacuumed or
+							// lost object): that part of the version cannot be read
+							if rq.Op == "GET" && strings.Contains(rq.Key, "/node/") {
+								return engine.FaultNoSuchKey, nil
+							}
+							return engine.FaultNone, nil
 						case "aws500":
 							return engine.FailBefore, engine.ErrAWS500()
 						case "ctx":
